@@ -212,7 +212,30 @@ def run_config(pid, hname, cfg, tier, seed, opts):
     signal.signal(signal.SIGALRM, _alarm)
     signal.alarm(int(hopts.get('config_timeout_s', 400 if tier == 'quick' else 1800)))
     try:
-        core.explore(body, max_paths=hopts.get('max_paths', 3000), on_path=on_path)
+        if cfg.get('_concrete'):
+            # a configuration the encoding does not reach (said in the harness): the whole body is a concrete-only obligation,
+            # evaluated on the real code at sampled points - counted as such, never as a solver verdict
+            done = 0
+            for k in range(int(cfg['_concrete']) * 3):
+                CW, exc = run_concrete(hrun, cfg, {}, seed * 1000 + k + 1)
+                if exc == 'assumption':
+                    continue
+                done += 1
+                res['paths'] += 1
+                for name, status, detail in CW.obs:
+                    res['obligations'] += 1
+                    if status in ('fail', 'fail-concrete-only'):
+                        res['candidates'].append({'ob': name, 'values': dict(CW.used), 'path': res['paths'], 'note': 'concrete-only configuration'})
+                    else:
+                        res['discharged'] += 1
+                        res['trivial'] += 1
+                if exc is not None and _raised_in_lentil(exc):
+                    res['candidates'].append({'ob': f'exception:{type(exc).__name__}', 'values': dict(CW.used), 'path': res['paths'], 'note': repr(exc)[:200]})
+                if done >= int(cfg['_concrete']):
+                    break
+            res['concrete_only_points'] = done
+        else:
+            core.explore(body, max_paths=hopts.get('max_paths', 3000), on_path=on_path)
     except Timeout:
         res['inconclusive'].append({'why': 'timeout'})
     except core.Budget as e:
